@@ -20,9 +20,13 @@ RE_VERDICT = re.compile(r"^VERIFICATION:- (SUCCESSFUL|FAILED)")
 RE_TIME = re.compile(r"^Verification Time: ([0-9.]+)s")
 
 
-def _env():
+def _env(repo_dir=None):
     e = dict(os.environ)
     e.update(KANI_ENV)
+    if repo_dir:
+        gen = os.path.join(os.path.dirname(repo_dir), "gen")
+        os.makedirs(gen, exist_ok=True)
+        e["COOKLANG_VERIF_GEN"] = gen
     return e
 
 
@@ -102,7 +106,7 @@ def run(repo_dir, harnesses, target_dir, log_path, jobs=8, timeout_s=600, packag
     shell = "ulimit -v %d; exec %s" % (mem_gb * 1024 * 1024, " ".join("'%s'" % c for c in cmd))
     with open(log_path, "w") as lf:
         p = subprocess.Popen(["bash", "-c", shell], cwd=repo_dir, stdout=lf, stderr=subprocess.STDOUT,
-                             env=_env(), start_new_session=True)
+                             env=_env(repo_dir), start_new_session=True)
         try:
             # global wall cap: every harness may use its own timeout, sequential waves included
             waves = (len(harnesses) + jobs - 1) // max(1, jobs)
@@ -142,7 +146,7 @@ def playback_print(repo_dir, harness, target_dir, log_path, timeout_s=1800, pack
     shell = "ulimit -v %d; exec timeout %d %s" % (mem_gb * 1024 * 1024, timeout_s,
                                                  " ".join("'%s'" % c for c in cmd))
     with open(log_path, "w") as lf:
-        subprocess.run(["bash", "-c", shell], cwd=repo_dir, stdout=lf, stderr=subprocess.STDOUT, env=_env())
+        subprocess.run(["bash", "-c", shell], cwd=repo_dir, stdout=lf, stderr=subprocess.STDOUT, env=_env(repo_dir))
     text = open(log_path, errors="replace").read()
     tests = []
     for m in RE_PB_TEST.finditer(text):
@@ -173,7 +177,7 @@ def playback_native(repo_dir, playback_file, tests, log_path, package="cooklang"
         cmd += ["--release"]
     cmd += ["--", "verif_playback_"]
     with open(log_path, "w") as lf:
-        subprocess.run(cmd, cwd=repo_dir, stdout=lf, stderr=subprocess.STDOUT, env=_env())
+        subprocess.run(cmd, cwd=repo_dir, stdout=lf, stderr=subprocess.STDOUT, env=_env(repo_dir))
     text = open(log_path, errors="replace").read()
     out = {}
     for n in names:
